@@ -917,6 +917,6 @@ def replay(record):
 
 MANIFEST = {
     "technique": "TLA+ reference codec of the PDB fixed-column records (specs/C07: FixedCols, Hybrid36, PdbColumns, PdbFile) model-checked by TLC; every TLC-enumerated input executed against PDBFile.set_structure/get_structure and encode/decode_hybrid36; recorded random round trips re-computed by TLC",
-    "level_text": "TLC enumerates every hybrid-36 number of widths 1-3 (thorough: 4) and the carry neighbourhoods of widths 4 and 5, single ATOM/HETATM records whose fields run through the boundary classes of their columns (coordinates, B-factor, occupancy, serial and residue numbers incl. wrap points and hybrid-36 limits, name/element alignment, name lengths, charges), and whole files (1-3 models, CRYST1, all subsets of bond lists over a peptide/ligand/water fragment and a star ligand with continuation records); the spec's invariants (round trip at column precision, fields in their columns, implemented acceptance test = declarative fit except on named known-bad inputs, model selection, CONECT carriage) hold on all of them; each input is then executed against the real code comparing the refusal, every ATOM/HETATM line character by character, and the structure read back; seeded random structures (<=60 atoms, synthetic CCD) and numbers are recorded and re-computed event by event by TLC.",
+    "level_text": "TLC enumerates every hybrid-36 number of widths 1-3 (thorough: 4) and the carry neighbourhoods of widths 4 and 5, single ATOM/HETATM records whose fields run through the boundary classes of their columns (coordinates, B-factor, occupancy, serial and residue numbers incl. wrap points and hybrid-36 limits, name/element alignment, name lengths, charges), and whole files (1-3 models, CRYST1, all subsets of bond lists over a peptide/ligand/water fragment and a star ligand with continuation records); the spec's invariants (round trip at column precision, fields in their columns, implemented acceptance test = declarative fit except on named known-bad inputs, model selection, CONECT carriage) hold on all of them; each input is then executed against the real code comparing the refusal, every ATOM/HETATM line character by character, and the structure read back; seeded random structures (<=60 atoms, synthetic CCD) and numbers are recorded and re-computed event by event by TLC. Every third enumerated batch and every second recorded batch runs as a history on one live PDBFile object (set_structure on an object that holds the previous structure and has served model=None reads, then get_structure / get_coord / get_b_factor on that same object): the content of a file is a function of the last structure set.",
     "level_note": "Bounded: exhaustive only over the enumerated boundary classes and scenarios; beyond them recorded random executions. Numbers are dyadic rationals (exact in float32/float64); triclinic boxes, alternate locations, TER/REMARK records and files not written by biotite are not decided. Bond round trip is checked as carried pairs <= read pairs <= carried+template+implied (types are diagnostic). hybrid36.pyx cannot be rebuilt here (no Cython). Trusted: TLC, the TLA+ value parser, numpy, the annotation projection.",
 }
